@@ -261,3 +261,35 @@ def xref_stream_defaults(ctx, F, R="R-TABLE"):
     bb2, ln, consts, others = gens[0]
     ctx.ob(R, "xref-stream|absent-generation-is-zero", consts in ([0], []) and others >= 1, "the generation is read from the stream or is the constant %s" % consts, bb2.where(ln),
            what="decode_xref_stream: when /W[2] is 0 the generation of an in-use entry defaults to %s instead of 0 (ISO 32000-1 Table 18)" % consts)
+
+
+def stream_body_start(ctx, F, R="R-ORDER"):
+    """The body of a stream starts right after the end-of-line that follows the keyword `stream` (ISO 32000-1 7.3.8.1).  The
+    position recorded for a stream whose /Length cannot be resolved yet is the remainder of the parse that consumed the
+    dictionary AND `stream` AND that end-of-line: the sequence parser holding the `stream` tag ends with `eol`."""
+    from mir import op_place, op_const
+    b = F.fn("parser::stream")
+    ok, how = False, "no sequence parser with the `stream` tag found"
+    for x in lib.local_scope(F, b):
+        for bi, si, st in x.stmts():
+            rv = st.get("rv")
+            if not (rv and rv["k"] == "agg" and rv["kind"].get("a") == "tuple" and len(rv["ops"]) >= 2):
+                continue
+            kinds = []
+            for o in rv["ops"]:
+                k = op_const(o)
+                if k is not None:
+                    kinds.append(((k.get("res") or k.get("fn") or "?")).rsplit("::", 1)[-1])
+                    continue
+                d = x.def_rv(o)
+                if d and d[2] == "call" and (d[3]["f"].get("fn") or "").endswith("complete::tag"):
+                    kinds.append("tag:" + (lib._const_bytes_through(x, d[3]["args"][0]) or b"?").decode("latin1"))
+                else:
+                    kinds.append("?")
+            if "tag:stream" in kinds:
+                i = kinds.index("tag:stream")
+                ok = "eol" in kinds[i + 1:]
+                how = "sequence %s" % kinds
+    wp = [c for x in lib.local_scope(F, b) for c in x.calls if c.local and c.cname.endswith("Stream::with_position")]
+    ctx.ob(R, "stream-body-starts-after-eol|parser::stream", ok and len(wp) == 1, "the parser that consumes the keyword `stream` also consumes the end-of-line after it (%s); the deferred position is its remainder" % how, b.where(),
+           what="parser::stream records the position of a stream with unresolved /Length before the end-of-line that follows `stream` (%s): the body read later starts with the line end and loses its last bytes" % how)
